@@ -52,18 +52,122 @@ static void vh_load_nonce_seq(const jv *in, vh_nonce_seq *s) {
     for (c = a ? a->child : NULL; c && s->n < 8; c = c->next) { jv_bytes_v(c, s->k[s->n], 32); s->n++; }
 }
 
+#ifdef VH_G_ECDSA
 #include "ops_ecdsa.h"
+#else
+#define VH_OPS_ECDSA
+#endif
+#ifdef VH_G_SCHNORR
 #include "ops_schnorr.h"
+#else
+#define VH_OPS_SCHNORR
+#endif
+#ifdef VH_G_CODEC
 #include "ops_codec.h"
+#else
+#define VH_OPS_CODEC
+#endif
+#ifdef VH_G_KEYS
 #include "ops_keys.h"
-#include "ops_extra.h"
+#else
+#define VH_OPS_KEYS
+#endif
+#ifdef VH_G_PEDERSEN
+#include "ops_pedersen.h"
+#else
+#define VH_OPS_PEDERSEN
+#endif
+#ifdef VH_G_RANGEPROOF
+#include "ops_rangeproof.h"
+#else
+#define VH_OPS_RANGEPROOF
+#endif
+#ifdef VH_G_SURJECTION
+#include "ops_surjection.h"
+#else
+#define VH_OPS_SURJECTION
+#endif
+#ifdef VH_G_WHITELIST
+#include "ops_whitelist.h"
+#else
+#define VH_OPS_WHITELIST
+#endif
+#ifdef VH_G_MUSIG
+#include "ops_musig.h"
+#else
+#define VH_OPS_MUSIG
+#endif
+#ifdef VH_G_ADAPTOR
+#include "ops_adaptor.h"
+#else
+#define VH_OPS_ADAPTOR
+#endif
+#ifdef VH_G_S2C
+#include "ops_s2c.h"
+#else
+#define VH_OPS_S2C
+#endif
+#ifdef VH_G_HALFAGG
+#include "ops_halfagg.h"
+#else
+#define VH_OPS_HALFAGG
+#endif
+#ifdef VH_G_ECDH
+#include "ops_ecdh.h"
+#else
+#define VH_OPS_ECDH
+#endif
+#ifdef VH_G_ELLSWIFT
+#include "ops_ellswift.h"
+#else
+#define VH_OPS_ELLSWIFT
+#endif
+#ifdef VH_G_BPPP
+#include "ops_bppp.h"
+#else
+#define VH_OPS_BPPP
+#endif
+#ifdef VH_G_CTX
+#include "ops_ctx.h"
+#else
+#define VH_OPS_CTX
+#endif
+#ifdef VH_G_KERNEL
+#include "ops_kernel.h"
+#else
+#define VH_OPS_KERNEL
+#endif
+#ifdef VH_G_UNTRUSTED
+#include "ops_untrusted.h"
+#else
+#define VH_OPS_UNTRUSTED
+#endif
+#ifdef VH_G_CT
+#include "ops_ct.h"
+#else
+#define VH_OPS_CT
+#endif
 
 static const vh_op OPS[] = {
     VH_OPS_ECDSA
     VH_OPS_SCHNORR
     VH_OPS_CODEC
     VH_OPS_KEYS
-    VH_OPS_EXTRA
+    VH_OPS_PEDERSEN
+    VH_OPS_RANGEPROOF
+    VH_OPS_SURJECTION
+    VH_OPS_WHITELIST
+    VH_OPS_MUSIG
+    VH_OPS_ADAPTOR
+    VH_OPS_S2C
+    VH_OPS_HALFAGG
+    VH_OPS_ECDH
+    VH_OPS_ELLSWIFT
+    VH_OPS_BPPP
+    VH_OPS_CTX
+    VH_OPS_KERNEL
+    VH_OPS_UNTRUSTED
+    VH_OPS_CT
     { NULL, NULL }
 };
 
@@ -79,7 +183,6 @@ int main(int argc, char **argv) {
     CTX = secp256k1_context_create(SECP256K1_CONTEXT_NONE);
     secp256k1_context_set_illegal_callback(CTX, vh_illegal_cb, NULL);
     secp256k1_context_set_error_callback(CTX, vh_error_cb, NULL);
-    vh_extra_init();
     while ((n = getline(&line, &cap, stdin)) > 0) {
         jv *rec; const jv *e, *in; const vh_op *op;
         long icb0 = ICB, ecb0 = ECB;
